@@ -1,5 +1,5 @@
 """Named monitor sets (so that a replay file can rebuild exactly the monitors that produced it)."""
-from harness.monitors import MLife, MCarry, MDrain, MEscape, MHist, MViews, MFail, MRef, MJoin
+from harness.monitors import MLife, MCarry, MDrain, MEscape, MHist, MViews, MFail, MRef, MJoin, MCrash
 
 def base(scenario):
     life = MLife()
@@ -9,7 +9,11 @@ def full(scenario):
     life = MLife()
     return [life, MCarry(), MDrain(life), MEscape(), MHist(), MViews(), MFail(), MRef(scenario), MJoin(scenario)]
 
-SETS = {"base": base, "full": full}
+def crash(scenario):
+    life = MLife()
+    return [life, MCarry(), MDrain(life), MEscape(), MCrash(scenario)]
+
+SETS = {"base": base, "full": full, "crash": crash}
 
 def get(name):
     return SETS[name]
